@@ -10,8 +10,9 @@
 //
 // Oracle: same value (ints and pairs structurally, functions as "a function"),
 // or an error on both sides; the VM must never panic. A program whose result
-// is a function is additionally applied to fresh integers (`call p 5 6 7`, to
-// depth 2) so that function results are compared by behaviour. Disagreements
+// is a function is additionally applied to fresh integers (`call p 5 6 7`, and
+// if that is a function again `call (call p 5 6 7) 8 9 3`) so that function
+// results are compared by behaviour. Disagreements
 // that the reference interpreter attributes to a closure reading a parameter
 // of an activation that already returned (U1) or to a partial application of a
 // variadic function (U2) are counted as "unsettled:*" outcomes, not
@@ -39,7 +40,7 @@ func main() {
 		ID:    "C21",
 		Level: "model_checking",
 		Rule: "All closed, kind-correct expression trees over the library, by exact unranking of a counting grammar: literals 1,2; lambda parameters (kind any); globals as values; lambdas with parameter lists (), (a), (a b), (a b c) and under a binder also (b), (b a) (shadowing); calls of a global with 0..arity+1 arguments (fewer = partial application binding the trailing parameters, more = arity error); calls whose function is a lambda literal or a call, with 0..3 arguments. " +
-			"Kinds int/pair/fn/any prune only statically ill-typed argument positions; kind any (parameters, results of first/second/apply/call/fail) is admitted everywhere so dynamic type errors stay reachable. Each program also runs with every 1-argument call marked pipelined, and function results are probed with `call p 5 6 7`. " +
+			"Kinds int/pair/fn/any prune only statically ill-typed argument positions; kind any (parameters, results of first/second/apply/call/fail) is admitted everywhere so dynamic type errors stay reachable. Each program also runs with every 1-argument call marked pipelined, and function results are probed with `call p 5 6 7` and, one level deeper, `call (..) 8 9 3`. " +
 			"Non-trivial = the reference interpreter performed at least one function application.",
 		Assumptions: []string{
 			"language rules R1-R6 of vmkit/lib.go (call-by-value; lexical scoping; call-position symbols are globals; partial application binds trailing parameters; too many arguments is an error; func-typed library parameters accept exactly arity-1 functions)",
